@@ -30,6 +30,63 @@ def common_pipeline_checks(report: Report, events, it, cons: str, label: str) ->
     report.add("R2-no-mutation", f"{cons}::inplace", not bad, f"{label}: no in-place operation on a value that may alias the argument" + ("; offending: " + ", ".join(f"{e['op']} at {e.where}" for e in bad) if bad else ""), [e["op"] for e in bad], "none")
 
 
+def check_clip_bound_kind(report: Report, repo: Repo, cons: str) -> None:
+    """Number-kind typestate of the saturation bound: torch.clip takes python numbers, and a python *int*
+    must fit 64 bits (OverflowError otherwise).  The pipeline is evaluated concretely per format in the
+    interpreter's number-kind mode (python floats stay floats, int/int and int ** negative int are floats),
+    and the bounds are read off the clip / clamp node of the returned dataflow term."""
+    from .. import values as V
+
+    def bounds_of(t):
+        out = []
+
+        def walk(x):
+            if isinstance(x, T):
+                if x.op == "call" and isinstance(x.args[0], str) and x.args[0] in ("torch.clip", "torch.clamp", "torch.clip_", "torch.clamp_"):
+                    out.extend(v for k_, v in x.args[1] if k_ in ("min", "max", "1", "2"))
+                elif x.op == "method" and x.args[0] in ("clip", "clamp", "clip_", "clamp_"):
+                    out.extend(list(x.args[2]) + [v for k_, v in x.args[3] if k_ in ("min", "max")])
+                for a in x.args:
+                    walk(a)
+            elif isinstance(x, (tuple, list)):
+                for a in x:
+                    walk(a)
+
+        walk(t)
+        return out
+
+    ms = (0, 1, 2, 23) if report.tier == "quick" else tuple(range(24))
+    bad, undecided, n_eval = [], [], 0
+    saved = V.FLOAT_KIND[0]
+    V.FLOAT_KIND[0] = True
+    try:
+        for e_ in range(2, 9):
+            for m_ in ms:
+                res, _events, _it, err = run_quantise(repo, "nearest", 0, e_, m_)
+                if err or res is None or res is BOTTOM:
+                    undecided.append(f"E{e_}M{m_}: {err or 'no result'}")
+                    continue
+                bs = bounds_of(TM.term_of(res))
+                if not bs:
+                    undecided.append(f"E{e_}M{m_}: no clip / clamp node in the returned term")
+                    continue
+                for b in bs:
+                    n_eval += 1
+                    if isinstance(b, (int, sp.Integer)) and not isinstance(b, bool) and not (-(2**63) <= int(b) < 2**64):
+                        bad.append(f"E{e_}M{m_}: bound {int(b)} is a python int that does not fit 64 bits")
+                    elif not isinstance(b, (int, sp.Basic)):
+                        undecided.append(f"E{e_}M{m_}: bound {fmt(b)} is not a number")
+    finally:
+        V.FLOAT_KIND[0] = saved
+    if bad:
+        report.add("R6-range", f"{cons}::clip-bound-kind", False, "for every format E in 2..8, M in 0..23 the saturation bound handed to torch.clip / clamp is a python float, or an int that fits 64 bits (signed, or unsigned when positive: torch raises OverflowError beyond)", bad[:4], [])
+    elif undecided:
+        report.add("R6-range", f"{cons}::clip-bound-kind", None, f"the saturation bound could not be read off the pipeline: {undecided[0]}")
+    else:
+        report.add("R6-range", f"{cons}::clip-bound-kind", True, "for every format E in 2..8, M in 0..23 the saturation bound handed to torch.clip / clamp is a python float, or an int that fits 64 bits (signed, or unsigned when positive: torch raises OverflowError beyond)", f"{n_eval} bounds", "floats / 64-bit ints")
+    report.note("clip_bound_kind_evaluations", n_eval)
+
+
 def check(report: Report, repo: Repo) -> None:
     report.rule_text = (
         "Abstractly evaluate FPFormat.quantise(x) with symbolic exponent/mantissa bits and rounding='nearest':"
@@ -78,6 +135,18 @@ def check(report: Report, repo: Repo) -> None:
             elif ok is None and not diffs[:-1]:
                 ok = False
         report.add("R3-pipeline", f"{cons}::return", ok, f"{label}: returned value must be the reference pipeline (either tie direction accepted); " + ("; ".join(diffs) if ok is not True else ""), fmt(got), "reference pipeline", nontrivial=e is E)
+    # R1 again for a rank-0 input (the property covers ranks 0-3): two 0-d tensors of different integer
+    # widths promote, so a 0-d int64 constant added to the 0-d int32 bit pattern widens it and the
+    # reinterpretation back to float32 fails
+    from ..values import Shape
+
+    res0, events0, it0, err0 = run_quantise(repo, "nearest", 0, shape=Shape(()))
+    if err0:
+        report.add("R1-dtype-typestate", f"{cons}::rank-0", None, f"rank-0 input: outside fragment: {err0}")
+    else:
+        for e_ in [e_ for e_ in events0 if e_.kind == "bitcast" and e_["to_dtype"] == "torch.float32"]:
+            report.add("R1-dtype-typestate", f"{cons}::view(float32)[rank-0]", e_["from_dtype"] == "torch.int32", "nearest, rank-0 input: the value reinterpreted as float32 must still be int32 (every tensor combined with the bit pattern is int32 or a python number)", str(e_["from_dtype"]), "torch.int32", where=e_.where)
+    check_clip_bound_kind(report, repo, cons)
     # R5 mode dispatch
     res, events, it, err = run_quantise(repo, "no-such-mode", 0)
     raised = [e["exc"] for e in events if e.kind == "raise"]
